@@ -23,6 +23,7 @@ import (
 )
 
 type checkCfg struct {
+	Engine2    string // second engine: every third worker runs it
 	Engine     string
 	Race       bool
 	QuickS     int
@@ -51,7 +52,7 @@ var checks = map[string]checkCfg{
 		Rule: "one case = one seeded plan (capture set, 4-20 tag/mark/converter API calls, import batches, view operations) under one seeded schedule of api/body/post/tick steps; after every step the incremental tag state and a freshly opened view (shown tags, tag searches) are compared with a from-scratch evaluation of every definition. distinct = distinct schedule signature (step labels with api ops abstracted to their kind); non-trivial = an import, API call or merge was applied while another job was in flight",
 		Real: realCommon, Stub: stubCommon,
 		Assume: []string{"one quiescent index.SearchStreams evaluation of a definition is the reference (C02/C04 are not claimed)", "converter-reading definitions are not judged while a converter job is between body and completion"}},
-	"C07": {Engine: "mgrsim", QuickS: 40, ThoroughS: 1200, Level: "exploration",
+	"C07": {Engine: "mgrsim", Engine2: "bsim", QuickS: 40, ThoroughS: 1200, Level: "exploration",
 		Rule: "one case = one seeded plan and schedule; at every applied merge completion the visible state (all streams with metadata, payload, packet references, shown tags) and a battery of ~20 searches is taken through fresh views immediately before and after and must be identical; at the end every suffix of the final stack is merged with index.Merge in a scratch directory and compared. distinct = distinct schedule signature; non-trivial = at least one merge was applied",
 		Real: realCommon, Stub: stubCommon,
 		Assume: []string{"searches in the battery use total sort orders (unique first-packet times by construction, id as last key)"}},
@@ -359,7 +360,11 @@ func runCheck(prop, tier string) int {
 	reported := 0
 	for _, k := range keys {
 		ol := a.viols[k]
-		rf := sim.ReplayFile{Property: ol.Viol.Property, Engine: cfg.Engine, Oracle: ol.Viol.Oracle, Signature: ol.Viol.Signature, Message: ol.Viol.Message, Seed: ol.Seed, Run: ol.Run, Plan: ol.Plan, Steps: ol.Steps}
+		eng := cfg.Engine
+		if cfg.Engine2 != "" && bytes.Contains(ol.Plan, []byte(`"stacks"`)) {
+			eng = cfg.Engine2
+		}
+		rf := sim.ReplayFile{Property: ol.Viol.Property, Engine: eng, Oracle: ol.Viol.Oracle, Signature: ol.Viol.Signature, Message: ol.Viol.Message, Seed: ol.Seed, Run: ol.Run, Plan: ol.Plan, Steps: ol.Steps}
 		if cfg.Race && len(ol.Log) > 0 {
 			rf.Message += "\n" + ol.Log[0]
 		}
@@ -476,7 +481,11 @@ func runWorker(b *build, env []string, cfg checkCfg, prop, tier string, seed, fr
 	}
 	scratch := filepath.Join(b.scratch, fmt.Sprintf("w%d", w))
 	os.RemoveAll(scratch)
-	cmd := exec.Command(b.worker, "-engine", cfg.Engine, "-prop", prop, "-tier", tier, "-seed", fmt.Sprint(seed), "-from", fmt.Sprint(from), "-stride", fmt.Sprint(stride), "-runs", "200", "-budget", left.String(), "-scratch", scratch)
+	engine := cfg.Engine
+	if cfg.Engine2 != "" && w%3 == 2 {
+		engine = cfg.Engine2
+	}
+	cmd := exec.Command(b.worker, "-engine", engine, "-prop", prop, "-tier", tier, "-seed", fmt.Sprint(seed), "-from", fmt.Sprint(from), "-stride", fmt.Sprint(stride), "-runs", "200", "-budget", left.String(), "-scratch", scratch)
 	cmd.Env = env
 	if cfg.Engine == "httpsim" {
 		os.MkdirAll(scratch, 0o755)
